@@ -299,7 +299,8 @@ ROUND7 = {
     "C13": " Round-7 clause: a barrier (inserted or found) takes from the pending list only the ops of its own block, never all of them (F-53, fixed); the users examined for an op include those of every value standing for the same buffer (view closure; F-54, fixed).",
     "C14": " Round-7 clauses: the move loop may drain the pending list from the front (pop(0)), draining from the back reverses the group; every SupportedKernel is built with a re-iterable sequence (no one-shot iterator); dispatch_to_compute declines an xDMA region only if some extension provides its kernel (F-51, fixed).",
     "C15": " Round-7 clause: ConstructPipeline redirects no value to a result of the index op it builds (the 'defined by the index op => safe' shortcut of PipelineDuplicateBuffers has that pass as its only producer).",
-    "C17": " Round-7 clause: the new trip count is computed in integer arithmetic (no float quotient).",
+    "C17": " Round-7 clauses: the new trip count is computed in integer arithmetic (no float quotient); MergeForLoops mutates only with both upper bounds non-negative (F-57, fixed).",
+    "C03": " Round-7 clause: the rotated form of SchedulePattern.rotate is built only for dim >= 1 (F-58, fixed).",
     "C18": " Round-7 clause: an order-free comparison of the two bodies (multisets / sorted lists of op types) is rejected.",
     "C19": " Round-7 clause: AffineTransform.compose builds (self.A @ other.A, self.A @ other.b + self.b); a shortcut returning one operand unchanged reads the matrix AND the translation of the operand it drops.",
     "C20": " Round-7 clause: valid_mapping pairs operands by position (strict zip) and rejects a position whenever its source differs from the followed abstract operand (no per-position membership test).",
